@@ -11,6 +11,32 @@ from symex.core import SymFloat, SymInt, SymBool, ShimGap, sbool
 from models import npmodel as np_
 from models.npmodel import ndarray
 
+def _np():
+    return sys.modules['numpy']
+
+
+def A(vals, shape=None):
+    """Array in the current world (model ndarray in the shim world, real numpy otherwise)."""
+    if isinstance(_np(), types.ModuleType) and getattr(_np(), '__version__', '') == 'model':
+        return ndarray(vals, shape)
+    a = _np().array(vals)
+    return a.reshape(shape) if shape is not None else a
+
+
+def flat(X):
+    if isinstance(X, ndarray) or hasattr(X, '_is_series'):
+        return np_._flat(X)
+    if hasattr(X, 'tolist'):
+        X = X.tolist()
+    out = []
+    for x in (X if isinstance(X, (list, tuple)) else [X]):
+        if isinstance(x, (list, tuple)):
+            out.extend(flat(x))
+        else:
+            out.append(x)
+    return out
+
+
 MODE = 'nondet'
 SCRIPT = []          # for 'scripted'
 OPTIONS = {
@@ -40,7 +66,11 @@ def _key(x):
     if isinstance(x, SymBool):
         return ('B', x.e.get_id())
     if isinstance(x, float):
-        return ('f', repr(x))
+        return ('f', repr(float(x)))
+    if type(x).__name__ in ('float64', 'int64'):
+        return _key(x.item())
+    if hasattr(x, 'tolist') and not isinstance(x, ndarray):
+        return ('A', tuple(_key(i) for i in flat(x)))
     if isinstance(x, (list, tuple)):
         return tuple(_key(i) for i in x)
     if isinstance(x, ndarray):
@@ -55,7 +85,7 @@ def _nxt(kind):
 
 
 def _has_nan(X):
-    for x in np_._flat(X):
+    for x in flat(X):
         if bool(core.isnan(x)):
             return True
     return False
@@ -99,7 +129,7 @@ class AgglomerativeClustering:
                                  'by AgglomerativeClustering.' % (n, n))
             e = _nxt('agg')
             assert e['n'] == n, (e['n'], n)
-            self.labels_ = ndarray(e['labels'])
+            self.labels_ = A(e['labels'])
             self.n_clusters_ = e['k']
             return self
         if n < 2:
@@ -127,7 +157,7 @@ class AgglomerativeClustering:
             ASSUMPTIONS.add('AgglomerativeClustering(%s,%s): arbitrary partition of the samples' % (self.linkage, self.metric))
             labs, k = partition_labels(n, 'agg')
         MEMO[key] = (list(labs), k)
-        self.labels_ = ndarray(labs)
+        self.labels_ = A(labs)
         self.n_clusters_ = k
         return self
 
@@ -138,6 +168,7 @@ def _single_linkage(X, thr):
                     'pairs closer than distance_threshold')
     pts = X.tolist()
     n = len(pts)
+    thr = thr if core.is_sym(thr) else float(thr)
     parent = list(range(n))
 
     def find(i):
@@ -174,7 +205,7 @@ def _single_linkage(X, thr):
 
 class GaussianMixture:
     def __init__(self, n_components=1, *, covariance_type='full', random_state=None, **kw):
-        self.n = np_.operator_index(n_components)
+        self.n = np_.operator_index(n_components) if core.is_sym(n_components) else int(n_components)
         self.covariance_type = covariance_type
         self.random_state = random_state
         CALLS.append(('gmm_init', self.n, covariance_type, random_state))
@@ -198,34 +229,36 @@ class GaussianMixture:
                 return e['val']
             # predict is a function of the sample value: look the recorded label up by value, so that
             # the replay does not depend on the order of tied time stamps (unstable sort in the real world)
-            xs = np_._flat(X)
+            xs = flat(X)
             assert len(xs) == len(e['x']), (len(xs), len(e['x']))
             out = []
             for x in xs:
                 j = min(range(len(e['x'])), key=lambda i: abs(e['x'][i] - x))
                 assert abs(e['x'][j] - x) <= 1e-9 * max(1.0, abs(x)), (x, e['x'][j])
                 out.append(e['labels'][j])
-            return ndarray(out)
+            return A(out)
         if kind not in self._memo:
             if OPTIONS['gmm'] is None:
                 raise ShimGap('GaussianMixture reached without a harness-specific stub')
             self._memo[kind] = OPTIONS['gmm'](self.n, X, kind)
         v = self._memo[kind]
-        return v.copy() if isinstance(v, ndarray) else v
+        return v.copy() if hasattr(v, 'copy') else v
 
-    def predict(self, X): return self._answer('predict', X)
+    def predict(self, X):
+        CALLS.append(('gmm_predict', self.n))
+        return self._answer('predict', X)
     def bic(self, X): return self._answer('bic', X)
     def aic(self, X): return self._answer('aic', X)
 
 
 def lowess(endog, exog, frac=2.0 / 3.0, it=3, delta=0.0, xvals=None, is_sorted=False, missing='drop',
            return_sorted=True):
-    y, x = np_._flat(endog), np_._flat(exog)
+    y, x = flat(endog), flat(exog)
     CALLS.append(('lowess', len(y)))
     if MODE == 'scripted':
         e = _nxt('lowess')
         assert e['n'] == len(y), (e['n'], len(y))
-        return ndarray([v for r in e['out'] for v in r], (len(e['out']), 2))
+        return A([v for r in e['out'] for v in r], (len(e['out']), 2))
     if not (is_sorted and return_sorted):
         raise ShimGap('lowess without is_sorted/return_sorted')
     ASSUMPTIONS.add('lowess: returns an N x 2 array, first column the given x, second column arbitrary finite reals')
@@ -237,7 +270,7 @@ def lowess(endog, exog, frac=2.0 / 3.0, it=3, delta=0.0, xvals=None, is_sorted=F
     out = []
     for i in range(len(y)):
         out += [x[i], MEMO[key][i]]
-    return ndarray(out, (len(y), 2))
+    return A(out, (len(y), 2))
 
 
 def install():
@@ -253,3 +286,14 @@ def install():
     api = mk('statsmodels.api')
     api.nonparametric = types.SimpleNamespace(lowess=lowess)
     sm.api = api
+
+
+def install_scripted_real():
+    """Real world, scripted replay: the real ampycloud code and the real numpy/pandas, but the three numerical
+    procedures answer what the solver's counterexample says (names stub:* of the model)."""
+    global MODE
+    MODE = 'nondet'
+    from ampycloud import cluster, layer, fluffer
+    cluster.AgglomerativeClustering = AgglomerativeClustering
+    layer.GaussianMixture = GaussianMixture
+    fluffer.sm = types.SimpleNamespace(nonparametric=types.SimpleNamespace(lowess=lowess))
